@@ -138,6 +138,7 @@ type File struct {
 	Module  string      // module name (identifier)
 	Props   []string    // properties this module serves
 	UseMods [][2]string // (package name, module name) pairs whose contracts are visible to callers
+	RefInvs []*InvDecl  // invariants of used modules: can be named in clauses here (they are proved in their own module)
 	Relies  [][3]string // (package name, module name, invariant): a package invariant proved in another module, assumed on entry of exported methods here
 	Witness []WitnessReq
 	UFuns   map[string]*UFun
